@@ -307,11 +307,14 @@ async def collab(kind: str, node_id: t.Any, payload: t.Any, mgr: int = 0) -> Non
     w.collab_count[key] = k + 1
     w.log.append(('event', rid, kind, node_id, payload, mgr, w.now()))
     ra = w.collab.get('raise_at')
-    if ra and ra[0] == kind and ra[1] == k and mgr == 0:
+    if ra and ra[0] == kind and ra[1] == k and mgr == w.collab.get('raise_mgr', 0):
         raise CollabError(kind, k)
     mode = w.collab.get('mode', 'instant')
     kinds = w.collab.get('gate_kinds')
     if mode == 'gated' and kinds is not None and kind not in kinds:
+        mode = 'instant'
+    gm = w.collab.get('gate_mgrs')
+    if mode == 'gated' and gm is not None and mgr not in gm:
         mode = 'instant'
     if mode == 'yield':
         await asyncio.sleep(0)
